@@ -142,10 +142,8 @@ class SONRQ(Aggregate):
         userid = kwargs.get("userid", None)
         userpass = kwargs.get("userpass", None)
         userkey = kwargs.get("userkey", None)
-        try:
-            assert (userid and userpass) or userkey
-            assert not ((userid or userpass) and userkey)
-        except AssertionError:
+        # N.B. not ``assert`` - it must hold under ``python -O`` as well
+        if not ((userid and userpass) or userkey) or ((userid or userpass) and userkey):
             msg = (
                 "{} must contain either <USERID> and <USERPASS> "
                 "or <USERKEY>, but not both"
